@@ -234,6 +234,7 @@ func init() {
 			c.Rule("random scripts (gen.Program; flavours: general, try-heavy, call-heavy, try enumeration, self tail calls, the complete call-binding enumeration (params 0..3 x variadic x explicit args 0..4 x spread none/0..4 x 5 call positions), chains of sibling closures, the destructuring enumeration over slices of a live array, the fresh-variable enumeration (17 declaring forms incl. the catch identifier x 8 re-execution contexts x 3 updates after capture)) run by the implementation (compiler+VM, optimizer off) vs the reference semantics Spec/Sem on the same AST: outcome and final globals (side-effect log); also optimizer on at limits {default,1,3} vs off (C01); distinct = distinct (outcome class, outcome hash)")
 			tryRepeatOracle(c)
 			valueSemOracle(c)
+			reusedTableGlobalsOracle(c)
 			constAssignOracle(c)
 			semRun(c, "general", 700*c.Scale, "C02")
 			semRun(c, "try", 500*c.Scale, "C03")
